@@ -6,7 +6,7 @@ from props import qcommon as qc
 
 class Grammar(qc.QGrammar):
     thread_kinds = [("async", 6), ("basync", 3), ("sync", 3), ("bsync", 2), ("aaw", 1), ("baaw", 1), ("apply", 1), ("await", 4), ("work", 1),
-                    ("suspend", 1), ("resume", 1)]
+                    ("suspend", 1), ("resume", 1), ("tpl_handout", 1)]
     body_kinds = [("work", 4), ("async", 2), ("basync", 1)]
     max_depth = 2
 
@@ -35,6 +35,36 @@ class Grammar(qc.QGrammar):
         return o
 
     def emit_other(self, P, kind, a, b, c, bodies, env):
+        if kind == "tpl_handout":
+            # a dispatch_barrier_sync parked behind a gated reader, then readers and an async barrier queued behind it by ANOTHER thread, which then
+            # opens the gate and calls dispatch_sync while the thread that finished the sync barrier is still handing the queued readers out
+            if env.in_item or P.nthreads < 2 or getattr(P, "handouts", 0) >= 2:
+                return None
+            P.handouts = getattr(P, "handouts", 0) + 1
+            q = P.cq[a % len(P.cq)]
+            other = (env.thread + 1 + (b % (P.nthreads - 1))) % P.nthreads
+            g = P.gate()             # a soft gate: the janitor opens it if the program stalls
+            first = P.op(env.ctx, "async", a=q, b=b & 1, q=q, thread=env.thread, depth=env.depth, tpl="handout")
+            P.op(P.body(first), "gate", a=g)
+            env.pending.append(first)
+            g2 = P.gate()
+            bw = P.op(env.ctx, "bsync", a=q, b=(b >> 1) & 1, q=q, thread=env.thread, depth=env.depth, tpl="handout")
+            P.op(P.body(bw), "work", a=20)
+            P.op(P.body(bw), "open", a=g2)          # the sync barrier's last action releases the probing thread
+            P.op(other, "sleep", a=[50, 150, 400][c % 3])
+            for i in range(3 + (c >> 2) % 14):
+                o = P.op(other, "async", a=q, b=i & 1, q=q, thread=other, depth=0, tpl="handout")
+                P.op(P.body(o), "work", a=(i % 3) * 10)
+            o = P.op(other, "basync", a=q, b=0, q=q, thread=other, depth=0, tpl="handout")
+            P.op(P.body(o), "work", a=30)
+            P.op(other, "open", a=g)
+            P.op(other, "gate", a=g2, b=1)          # spin until the sync barrier's body is over: the probe then lands while its thread hands the readers out
+            if (c >> 5) % 3:
+                P.op(other, "work", a=[0, 10, 40][(c >> 5) % 3])
+            o = P.op(other, "sync", a=q, b=c & 1, q=q, thread=other, depth=0, tpl="handout")
+            P.op(P.body(o), "work", a=10)
+            P.features.add("tpl-sync-barrier-handout")
+            return bw
         if kind == "apply":
             if env.in_item:
                 return None
@@ -50,7 +80,7 @@ class Grammar(qc.QGrammar):
 class Check(E3Check):
     prop = "C04"
     rule = ("Hypothesis recipe -> sound program on one or two DISPATCH_QUEUE_CONCURRENT queues (targeting the default root, created with a global target, or "
-            "width-limited via dispatch_queue_set_width): 1-4 threads submit readers and barriers with async/sync/async_and_wait in block and _f form (a third of the barriers are block objects created with DISPATCH_BLOCK_BARRIER and handed to the plain, non-barrier API), dispatch_apply, "
+            "width-limited via dispatch_queue_set_width): 1-4 threads submit readers and barriers with async/sync/async_and_wait in block and _f form (a third of the barriers are block objects created with DISPATCH_BLOCK_BARRIER and handed to the plain, non-barrier API), dispatch_apply, a 'parked sync barrier hands the queued readers out while another thread calls dispatch_sync' template, "
             "awaits, nested submissions, suspend/resume; item bodies have varied length so width is returned at varied moments. Oracles (one-sided stamps): a barrier "
             "item overlaps no other item of its queue (apply invocations count as readers); everything whose submission returned before the barrier was submitted "
             "finishes before it starts; everything submitted after the barrier's submission returned starts after it finishes. Non-trivial: a barrier was submitted "
